@@ -39,7 +39,9 @@ Kids3 == IF Kind = "retry" THEN RKids3 ELSE SKids3
 Inputs == IF Kind = "retry" THEN RInputs ELSE SInputs
 
 Depth1 == IF Thorough THEN Combos(Kids, 3, 3) ELSE Combos(Kids, 2, 2) \cup Combos(Kids3, 3, 3)
-Depth2 == IF Thorough THEN Combos(Kids3 \cup Combos(Kids3, 2, 2), 2, 2) ELSE {}
+\* quick: mixed nesting over two kids (a combinator inside the OTHER combinator is where flattening goes wrong)
+Kids2 == IF Kind = "retry" THEN {RA("type", <<"VE">>), RA("not_msg_re", <<"http5">>)} ELSE {SA("after_attempt", <<3>>), SA("s_bare", <<2>>)}
+Depth2 == IF Thorough THEN Combos(Kids3 \cup Combos(Kids3, 2, 2), 2, 2) ELSE Combos(Kids2 \cup Combos(Kids2, 2, 2), 2, 2)
 Trees == Atoms \cup Depth1 \cup Depth2
 
 ASSUME PrintT(<<"INPUTS", SetToSeq(Inputs)>>)
